@@ -491,6 +491,17 @@ impl<C: HCfg> Node<C> {
                 GgrsRequest::AdvanceFrame { inputs } => {
                     rec.n_adv = rec.n_adv.saturating_add(1);
                     let f = self.game.frame;
+                    let inputs: Vec<(u8, InputStatus)> = inputs
+                        .iter()
+                        .enumerate()
+                        .map(|(p, (i, s))| {
+                            let (v, intact) = C::dec(i);
+                            if !intact {
+                                cx.v("C01", "input-corrupted", ni, format!("frame {f} player {p}: the game was handed the input {} ({s:?}), whose fields do not belong to one submitted value", C::show(i)));
+                            }
+                            (v, *s)
+                        })
+                        .collect();
                     if f < 0 {
                         cx.v("C02", "advance-negative", ni, format!("AdvanceFrame with the game at frame {f}"));
                         continue;
@@ -1112,7 +1123,7 @@ fn step_node<C: HCfg>(
                     Action::SetDelay { handle, delay } => s.set_input_delay(*handle, *delay).map(|_| String::new()),
                     Action::Disconnect { handle } => s.disconnect_player(*handle).map(|_| String::new()),
                     Action::AddInputFor { handle } => s
-                        .add_local_input(*handle, scn.program.value(*handle, cur_frame))
+                        .add_local_input(*handle, C::enc(scn.program.value(*handle, cur_frame)))
                         .map(|_| String::new()),
                     Action::NetStats { handle } => s.network_stats(*handle).map(|st| format!("{st:?}")),
                     Action::AdvanceWithoutInput => s.advance_frame().map(|r| format!("{} requests", r.len())),
@@ -1248,10 +1259,10 @@ fn step_node<C: HCfg>(
                 let again = style == 3 && resubmission;
                 for h in &order {
                     if style == 2 {
-                        s.add_local_input(*h, scn.program.value(*h, f) ^ 0x5A).expect("add_local_input for a local handle");
+                        s.add_local_input(*h, C::enc(scn.program.value(*h, f) ^ 0x5A)).expect("add_local_input for a local handle");
                     }
                     let v = scn.program.value(*h, f) ^ if again { 0x21 } else { 0 };
-                    s.add_local_input(*h, v).expect("add_local_input for a local handle");
+                    s.add_local_input(*h, C::enc(v)).expect("add_local_input for a local handle");
                 }
                 if use_wait {
                     match scn.peers[ni].wait_timeout_ms {
@@ -1517,8 +1528,10 @@ fn finish<C: HCfg>(
 }
 
 pub fn run_scn(scn: &Scenario, devs: &Devs, opt: &RunOpt) -> ExecResult {
-    match scn.pred {
-        Pred::RepeatLast => run::<CfgR>(scn, devs, opt),
-        Pred::Default => run::<CfgD>(scn, devs, opt),
+    match (scn.pred, scn.wide) {
+        (Pred::RepeatLast, false) => run::<CfgR>(scn, devs, opt),
+        (Pred::Default, false) => run::<CfgD>(scn, devs, opt),
+        (Pred::RepeatLast, true) => run::<CfgWR>(scn, devs, opt),
+        (Pred::Default, true) => run::<CfgWD>(scn, devs, opt),
     }
 }
